@@ -160,7 +160,7 @@ def run(chk):
             script.insert(pos, ('R', 0xFF00))
             script += [('R', [0, 0xB000, 0xA702][k % 3]), ('S', 5, 99, 0), ('R', 0)]
             cases.append({'kind': 'get', 'script': script, 'pc': 3, 'msgid': [4, 0, 65535][k % 3]})
-    for _ in range(40 if tier == 'quick' else 1000):
+    for _ in range(40 if tier == 'quick' else 10000):
         k = rnd.randrange(0, 9)
         script = []
         for i in range(k):
